@@ -43,6 +43,9 @@ func scenarios() []Scenario {
 				Script2: `stream|from().measurement('loop')|log().prefix('S')`, Buf: 8},
 			Scenario{Name: "loopback-full-ingest-buffer", Script: `stream|from().measurement('m')|log().prefix('IN')|kapacitorLoopback().database('db2').retentionPolicy('rp').measurement('loop')`, N: 3, Stop: stop,
 				Script2: `stream|from().measurement('loop')|log().prefix('S')`, Buf: 1, MaxExec: 3},
+			// a loopback next to a sibling output declared after it: whatever happens to the loopback's writes while the
+			// task master goes down, the sibling still gets every acknowledged point
+			Scenario{Name: "loopback-sibling", Script: "var src = stream|from().measurement('m')\nsrc|log().prefix('IN')\nsrc|kapacitorLoopback().database('db2').retentionPolicy('rp').measurement('loop')\nsrc|log().prefix('S')", N: 3, Stop: stop, Buf: 8},
 			Scenario{"eval-influxdbout", `stream|from().measurement('m')|log().prefix('IN')|eval(lambda: "v" + 1).as('w').keep('v', 'w')|influxDBOut().database('out').buffer(2)`, 3, stop, "", false, false, 0, 0, 0},
 		)
 	}
